@@ -85,6 +85,28 @@ def nonappl_kind_dropped_by_oc_appid_check(finding: dict, src: str) -> bool:
     return False
 
 
+def _path_reads_oc_appid(finding: dict, src: str) -> bool:
+    from vlib import tealsem as ts
+
+    path = finding.get("path_lines") or []
+    p = ts.tokenize(src)
+    start_of = ts.block_start_of(p)
+    visited = set(path)
+    for ins in p.ins:
+        if p.ins[start_of[ins.idx]].line in visited and _OC_APPID_READ.match(" ".join([ins.op] + ins.args)):
+            return True
+    return False
+
+
+def close_detector_silent_after_oc_appid_check(finding: dict, src: str) -> bool:
+    """KF-C07-appid-oc seen through C01: can-close-account / can-close-asset stay silent because Pay / Axfer
+    was dropped by an OnCompletion / ApplicationID check on the approved path."""
+    if finding.get("obligation") not in ("must-report:can-close-account", "must-report:can-close-asset"):
+        return False
+    return _path_reads_oc_appid(finding, src)
+
+
 PREDICATES = {
+    "close_detector_silent_after_oc_appid_check": close_detector_silent_after_oc_appid_check,
     "nonappl_kind_dropped_by_oc_appid_check": nonappl_kind_dropped_by_oc_appid_check,
 }
